@@ -36,6 +36,9 @@ CHECKS = {
  "C18": dict(cat="model_checking", tech="TLA+ step-loop spec (TLC over all ok/diverge patterns) + trace validation of MCLMC hook events with harness-side numeric predicates",
    text="Mclmc.tla models the halving-stack step loop: factor = 2^-depth, exact conservation of integration time, step count = num_base iff no retry, give-up at the halving limit, no retry without dynamic step size; checked for all outcome patterns at num_base 1..4, 0..3 halvings. Real chains of the three MCLMC presets (trajectory kinds, dynamic on/off, subsample frequencies, jitter, forced divergences) must be behaviours of MclmcTrace, which also checks the Euclidean->Microcanonical switch (once, at the configured draw, with resampled momentum), unchanged position + fresh unit momentum on divergent draws, start-from-previous-draw, and Progress/stat step counts.",
    note="unit norm, ESH closed form (dim <= 8) and num_base formula are harness-side predicates at 1e-9 / exact", ref="5/C18"),
+ "C14": dict(cat="model_checking", tech="TLA+ abstract-log spec with per-backend observation functions; TLC-enumerated operation sequences executed on every real backend, answers decoded and validated against the spec (trace validation)",
+   text="TLC enumerates all operation sequences (records with warm-up / divergence / update flags, flush, inspect, finalize after any prefix) of the abstract log for num_tune, num_draws <= 2 and checks the log-level properties; each sequence is executed on HashMap, Arrow, ndarray, CSV, Zarr sync and Zarr async through the crate's storage traits with 1..3 chains, store_warmup on/off, optional/event field options and all value types and shapes (scalar, vector, 2x3 / 3x2 matrix; NaN, +-inf, empty strings); the answer, read back with a fresh reader (zarrs re-open, CSV re-parse, Arrow arrays, ndarray views) and decoded to record indices, must equal the observation Storage.tla computes for that backend's layout.",
+   note="values are injective in (variable, chain, record); decoding by exact canonical cell comparison harness-side; 'draw'/'chain' stats omitted by design in HashMap/ndarray/Zarr are not demanded; CSV inspect has no result by design; Zarr inspect counts as a reader observation", ref="5/C14"),
 }
 NOT_APPLICABLE = {
  "C19": "encode/decode fidelity of a plain data structure plus equality of two deterministic runs: no state machine, schedule, history or fault to specify in TLA+ (DESIGN.md 5/C19)",
